@@ -8,6 +8,15 @@ clean run.  Oracle: the call fails with a timeout error inside [T, T + rounding]
 start of the governed phase; at quiescence nothing of the failed request is left (transport closed and not
 pooled, no slot/waiter/DNS task, no task alive), siblings are unharmed, the session still works, and the
 loop exception handler stayed silent.
+
+(C) vlib/c18chain.py: multi-hop calls (redirects to the same / another host, the automatic retry after a server
+disconnect) with the stall at every phase of every hop (pool slot, DNS, connect, TLS handshake seam, body send,
+offsets of the hop's response head - also behind an interim 1xx response - and of the final body), the final
+response in every framing (Content-Length, chunked, close-delimited HTTP/1.1 and 1.0, gzip/deflate over each) read
+through every StreamReader consumer API, and ClientTimeout objects with one or several kinds configured.  The bound
+is the earliest admissible deadline of the applicable configured kinds, computed from instants the harness observed
+itself; a watchdog past every admissible bound lets the environment recover so that a late error or a late
+"success" is observed.  Clean multi-hop runs are cancelled at every loop iteration.
 """
 
 from __future__ import annotations
@@ -24,17 +33,26 @@ LEVEL_TEXT = (
     "Fault enumeration: every stall point of the in-memory exchange (pool wait, DNS, connect, body send, every byte offset of the "
     "response head, inside a chunk-size line, inside chunk data, between chunks) x applicable timeout kind {total, connect, "
     "sock_connect, sock_read} x T in {0.5, 3, 7} (both sides of the ceil threshold), and cancellation of the caller at every loop "
-    "iteration of a clean run (the only instants a task can be cancelled), with siblings sharing the pool / the in-flight DNS lookup."
+    "iteration of a clean run (the only instants a task can be cancelled), with siblings sharing the pool / the in-flight DNS lookup. "
+    "Multi-hop calls (redirect chains, retry after disconnect; up to 4 hops) x stalled hop x phase {pool, DNS, connect, TCP connect, TLS "
+    "handshake seam, body send, head offsets incl. behind a 1xx, body offsets} x single and combined timeout kinds; final-response framing "
+    "{Content-Length, chunked, close-delimited 1.1/1.0, gzip/deflate} x every body offset x consumer {read, iter_any, iter_chunked, "
+    "iter_chunks, readline, readany, read(n), readexactly} (quick: a covering rotation; thorough: the full product); clean multi-hop runs "
+    "cancelled at every loop iteration."
 )
 RULE = (
     "a case = (stall point | cancel iteration, timeout kind, T, connector kind, sibling present); enumerated exhaustively over the "
     "listed grid; non-trivial = the request reached the stalled phase (or the cancel hit a live task); distinct by case; "
-    "interleavings = distinct (phase at which the failure struck, error type, residue outcome) signatures"
+    "interleavings = distinct (phase at which the failure struck, error type, residue outcome) signatures; chain cases additionally "
+    "keyed by (hop chain, stalled hop, framing, consumer, timeout configuration)"
 )
 ASSUMPTIONS = [
     "documented rounding: a timeout >= ceil_threshold (5 s) fires at ceil(now + T), i.e. within T + 1 s",
     "virtual time: VLoop jumps the clock to the next timer, so bounds are exact, never wall-clock",
     "environment seams only: resolver, aiohappyeyeballs.start_connection and connector.create_connection are replaced for the TCPConnector stratum",
+    "the TLS handshake is represented by the connector.create_connection seam being called with an SSLContext (that is where the event loop performs it); no real TLS bytes are exchanged",
+    "profile rule effective-total: the bound of `total` is ClientTimeout.total as held by the constructed object (raised to the largest specific timeout; CHANGES/7274.feature, tests/test_client_session.py::test_client_timeout_default_total_uses_max_of_others)",
+    "a timeout error raised while no peer stalls (slow consumer) is outside the statement: such runs are driven and counted (observed:timeout-without-peer-stall) and judged on the residue clauses only",
 ]
 FILES = ["aiohttp/client.py", "aiohttp/helpers.py", "aiohttp/client_reqrep.py", "aiohttp/client_proto.py", "aiohttp/connector.py", "aiohttp/streams.py"]
 ANCHORS = [
@@ -58,15 +76,21 @@ TS = [0.5, 3.0, 7.0]
 def shards(tier, seed):
     q = tier == "quick"
     out = []
-    n = 6
+    n = 4 if q else 6
     for i in range(n):
         out.append({"kind": "stall-mem", "sub": i, "parts": n, "stride": 2 if q else 1})
-    for i in range(2):
-        out.append({"kind": "stall-tcp", "sub": i, "parts": 2})
+    for i in range(1 if q else 2):
+        out.append({"kind": "stall-tcp", "sub": i, "parts": 1 if q else 2})
     for i in range(4):
         out.append({"kind": "cancel", "sub": i, "parts": 4})
     for i in range(2 if q else 8):
         out.append({"kind": "random", "sub": i, "n": 150 if q else 1500})
+    n = 3 if q else 12
+    for i in range(n):
+        out.append({"kind": "chain", "sub": i, "parts": n, "stride": 2 if q else 1})
+    n = 2 if q else 10
+    for i in range(n):
+        out.append({"kind": "framing", "sub": i, "parts": n})
     return out
 
 
@@ -472,9 +496,87 @@ def report(rec, case, v, res, state):
         rec.violation(mech, summ, key)
 
 
+def report_chain(rec, case, v, res, info):
+    from vlib import c18chain as cc
+
+    key = {k: val for k, val in case.items() if not k.startswith("_")}
+    stall = case.get("stall")
+    reached = bool(info.get("reached")) or (stall is None and (("exc" in res) or ("status" in res)))
+    rec.case(key, nontrivial=reached)
+    rec.count("cases")
+    rec.count("chain-cases")
+    outcome = str(res.get("exc") or res.get("status"))
+    rec.count("outcome:" + outcome)
+    if stall is not None:
+        rec.count(("stall-reached:" if info.get("reached") else "stall-not-reached:") + stall[1] + (":later-hop" if stall[0] else ""))
+        if info.get("stall_not_awaited"):
+            rec.count("stall-not-awaited-by-consumer")
+        if info.get("gov"):
+            rec.count("governing-kind:" + info["gov"] + ("" if len(case["tmo"]) == 1 else "(combined)"))
+    elif "cancel_at" not in case and res.get("is_timeout"):
+        # nobody stalled: outside the statement, judged on the residue clauses only
+        rec.count("observed:timeout-without-peer-stall:" + outcome + ":" + cc.framing_class(case.get("framing", "chunked")))
+    if info.get("rule_effective_total"):
+        rec.count("rule:effective-total")
+    if res.get("overdue"):
+        rec.count("overdue-watchdog-fired")
+    rec.sig("interleaving", ("chain", tuple(case["trans"]), tuple(stall[:2]) if stall else None, case.get("conn"), info.get("gov"), case.get("framing"),
+                             case.get("consumer"), outcome, case.get("cancel_at", -1) if "body_done" not in res else "completed"))
+    for mech, summ in v:
+        rec.violation(mech, summ, key)
+
+
+def run_chain_case(case, rec):
+    from vlib import c18chain as cc
+
+    v, res, info = cc.run_chain(case)
+    report_chain(rec, case, v, res, info)
+    return res
+
+
 def run_shard(spec, rec):
     kind = spec["kind"]
-    if kind == "stall-mem":
+    if kind == "chain":
+        from vlib import c18chain as cc
+
+        cells = cc.chain_cells(spec["tier"])
+        mine = [c for i, c in enumerate(cells) if i % spec["parts"] == spec["sub"]]
+        if spec["stride"] > 1:
+            mine = mine[spec["seed"] % spec["stride"] :: spec["stride"]]
+        for case in mine:
+            run_chain_case(case, rec)
+        rec.set_exhaustive("hop chain x stalled hop x phase x timeout configuration" + ("" if spec["stride"] == 1 else f" 1/{spec['stride']} per seed"), spec["stride"] == 1)
+        if mine:
+            rec.sample({"chain-example": mine[len(mine) // 2]})
+        # clean multi-hop runs cancelled at every loop iteration
+        plans = cc.clean_chains(spec["tier"])
+        for pi, plan in enumerate(plans):
+            if pi % spec["parts"] != spec["sub"]:
+                continue
+            for k in range(0, 400):
+                case = dict(plan)
+                case["cancel_at"] = k
+                res = run_chain_case(case, rec)
+                if "body_done" in res and k > 5:
+                    break
+            rec.sample({"cancel-plan": plan, "cancel_iterations_tried": k + 1})
+    elif kind == "framing":
+        from vlib import c18chain as cc
+
+        cells = cc.framing_cells(spec["tier"])
+        if spec["tier"] == "quick":
+            # rotate the covering selection with the seed
+            cells = cells[spec["seed"] % 2 :: 2] + cells[(spec["seed"] + 1) % 2 :: 4]
+        mine = [c for i, c in enumerate(cells) if i % spec["parts"] == spec["sub"]]
+        for case in mine:
+            run_chain_case(case, rec)
+        rec.set_exhaustive("framing x body offset x consumer x timeout configuration", spec["tier"] != "quick")
+        if spec["sub"] == 0:
+            for case in cc.slow_consumer_cells(spec["tier"]):
+                run_chain_case(case, rec)
+        if mine:
+            rec.sample({"framing-example": mine[len(mine) // 3]})
+    elif kind == "stall-mem":
         cells = [(p, tk, T) for p in stall_points() for tk in ("total", "connect", "sock_read") for T in TS if applicable(p, tk)]
         mine = [c for i, c in enumerate(cells) if i % spec["parts"] == spec["sub"]]
         if spec["stride"] > 1:
@@ -534,6 +636,12 @@ def run_shard(spec, rec):
     elif kind == "random":
         rng = random.Random(spec["seed"] * 1000003 + spec["sub"] * 7919 + 18)
         for i in range(spec["n"]):
+            if i % 2:
+                case = random_chain_case(rng)
+                run_chain_case(case, rec)
+                if i % 41 == 0:
+                    rec.sample(case)
+                continue
             tcp = rng.random() < 0.4
             pts = stall_points() + ([("dns", None), ("tcp-connect", None)] if tcp else [])
             p = rng.choice(pts)
@@ -553,7 +661,78 @@ def run_shard(spec, rec):
                 rec.sample({k: val for k, val in case.items() if not k.startswith("_")})
 
 
+def random_chain_case(rng):
+    """A random point of the chain space: random chain (at most one retry), stalled hop, phase, offsets, framing,
+    consumer, and a random non-empty subset of timeout kinds with random durations."""
+    from vlib import c18chain as cc
+
+    n = rng.choice([0, 1, 1, 2, 2, 3])
+    trans = []
+    for _ in range(n):
+        trans.append(rng.choice(["redir-other", "redir-same"] + ([] if "disc" in trans else ["disc", "disc"])))
+    nh = n + 1
+    h = rng.randrange(nh)
+    tcp = rng.random() < 0.45
+    final = h == nh - 1
+    newc = cc.new_connection_needed(trans, h)
+    phases = ["head"] if (final or trans[h] != "disc") else []
+    if final:
+        phases += ["body", "body"]
+    if tcp:
+        if h == 0 or trans[h - 1] == "redir-other":
+            phases.append("dns")
+        if newc:
+            phases += ["tcp-connect", "tls"]
+    else:
+        phases.append("send-body")
+        if h == 0 or trans[h - 1] == "redir-other":
+            phases.append("pool")
+        if newc:
+            phases.append("connect")
+    if not phases:
+        h, final, phases = nh - 1, True, ["head", "body"]
+    ph = rng.choice(phases)
+    fr = rng.choice(cc.FRAMINGS)
+    head, wire, closes = cc.frame_response(fr, cc.BODY)
+    case = {"mode": "chain", "conn": "tcp" if tcp else "mem", "trans": trans, "framing": fr, "consumer": rng.choice(cc.CONSUMERS)}
+    arg = None
+    if ph == "head":
+        if final and rng.random() < 0.3:
+            case["interim"] = True
+            arg = rng.randrange(len(cc.INTERIM) + len(head))
+        else:
+            arg = rng.randrange(len(head) if final else 60)
+    elif ph == "body":
+        arg = rng.randrange(len(wire) + (1 if closes else 0))
+        if arg >= 3 and rng.random() < 0.3:
+            case["dribble"] = rng.randrange(1, 4)
+    case["stall"] = [h, ph, arg]
+    if ph == "send-body":
+        case["method"] = "PUT"
+    if ph == "tls":
+        case["tls_hops"] = list(range(nh)) if (rng.random() < 0.5 or (h and trans[h - 1] == "disc")) else [h]
+    if tcp:
+        case["dns_cache"] = rng.random() < 0.6
+        if ph == "dns" and rng.random() < 0.4:
+            case["sibling"] = True
+    app = [k for k in cc.KINDS if cc.applicable(ph, k)]
+    kinds = {rng.choice(app)}
+    for k in cc.KINDS:
+        if rng.random() < 0.3:
+            kinds.add(k)
+    case["tmo"] = {k: rng.choice([0.1, 0.5, 1.0, 3.0, 4.9, 5.0, 5.1, 7.0, 12.3]) for k in sorted(kinds)}
+    if rng.random() < 0.15:
+        case.pop("stall")
+        case["cancel_at"] = rng.randrange(0, 120)
+        case.pop("dribble", None)
+        case["lat"] = case["dlat"] = 0.0
+    return case
+
+
 def replay(witness, rec):
+    if witness.get("mode") == "chain":
+        run_chain_case(dict(witness), rec)
+        return
     case = dict(witness)
     case["point"] = tuple(case["point"]) if isinstance(case["point"], list) else case["point"]
     if isinstance(case["point"][1], list):
